@@ -44,6 +44,7 @@ class Gen:
         self.epoch_views: set[int] = set()
         self.readonly: set[int] = set()
         self.scopes: list = []
+        self.lowprec = False  # a float16/32 tensor exists: avoid divisions (their gradients are inexact in low precision)
         self.unguarded: set[int] = set()  # operands/results of ops recorded while the memory guard was off
 
     # ------------------------------------------------------------------ helpers
@@ -92,6 +93,14 @@ class Gen:
                         self.np.H[h][...] = a
             elif s["k"] in ("op", "leaf"):
                 del self.np.H[s["h"]]
+            return False
+        if (s["k"] == "op" and (s.get("kw") or {}).get("constant") == "false" and self.tracking()
+                and self.np.H[s["h"]].dtype.kind in "iub"):
+            # constant=False on an integer-valued result: MyGrad must refuse (C10); a failing statement
+            s["intres"] = True
+            s["fail"] = True
+            del self.np.H[s["h"]]
+            self.prog.append(s)
             return False
         self.prog.append(s)
         if s["k"] == "op" and self.tracking() and not self.guard_on():
@@ -143,6 +152,15 @@ class Gen:
             const = self.rng.random() < self.p.get("p_const_leaf", 0.15)
         h = self.new()
         s = {"k": "leaf", "h": h, "sh": list(sh), "v": self.rand_vals(n, nozero, distinct), "const": bool(const)}
+        x = self.rng.random()
+        if x < self.p.get("p_int_leaf", 0.0):
+            s["dt"] = "i8"
+            s["v"] = [R(self.rng.choice([-3, -2, -1, 0, 1, 2, 3, 4])) for _ in range(n)]
+            const = True
+        elif x < self.p.get("p_int_leaf", 0.0) + self.p.get("p_f32_leaf", 0.0):
+            self.lowprec = True
+            s["dt"] = self.rng.choice(["f4", "f4", "f2"])
+            s["v"] = [R(self.rng.choice([-3, -2, -1, 0, 1, 2, 3])) for _ in range(n)]
         if not self.emit(s, const=const):
             raise GenSkip()
         return s["h"]
@@ -246,6 +264,8 @@ class Gen:
     def gen_functional(self) -> bool:
         r = self.rng
         fam = r.choice(self.p["functional"])
+        if self.lowprec and fam in ("power",):
+            return False
         a = self.pick()
         if a is None:
             return False
@@ -256,6 +276,8 @@ class Gen:
         s = None
         if fam == "bin":
             f = r.choice(["add", "subtract", "multiply", "multiply", "add", "divide", "maximum", "minimum"])
+            if self.lowprec and f == "divide":
+                f = "multiply"
             b = self.operand_like(sh)
             ops = [{"h": a}, b]
             if r.random() < 0.5:
@@ -272,8 +294,12 @@ class Gen:
                     return False
         elif fam == "un":
             f = r.choice(["negative", "square", "abs", "positive", "reciprocal", "relu"])
+            if self.lowprec and f == "reciprocal":
+                f = "negative"
             if f in ("abs", "reciprocal", "relu") and np.any(A == 0):
                 return False
+            if f in ("reciprocal", "relu") and A.dtype.kind in "iub":
+                return False  # integer reciprocal truncates: outside the exact (rational) fragment
             s = {"k": "op", "h": h, "f": f, "a": [{"h": a}]}
             ops = s["a"]
         elif fam == "power":
@@ -284,6 +310,8 @@ class Gen:
             ops = s["a"]
         elif fam == "red":
             f = r.choice(["sum", "sum", "mean", "prod", "max", "min", "var"])
+            if self.lowprec and f in ("mean", "var"):
+                f = "sum"
             k = {}
             nd = A.ndim
             x = r.random()
@@ -476,6 +504,8 @@ class Gen:
             return False
         T = self.arr(t)
         sh = list(T.shape)
+        if T.dtype.kind in "iub":
+            return False  # writing fractions into integer memory truncates: outside the exact (rational) fragment
         kind = r.choice(self.p.get("inplace", ["setitem", "setitem", "aug", "uout"]))
         if kind == "setitem":
             x = r.random()
@@ -553,11 +583,118 @@ class Gen:
                     acc = s3["h"]
         return acc
 
-    def backward(self, h, seed=None):
+    def backward(self, h, seed=None, kind=None):
         s = {"k": "backward", "h": h}
         if seed is not None:
             s["seed"] = seed
+            if kind:
+                s["seed_kind"] = kind
         self.prog.append(s)
+
+    def rand_seed(self, sh, bad=False):
+        """A seed gradient for a terminal of shape sh: scalar / broadcastable array / full array (or a bad one)."""
+        r = self.rng
+        if bad:
+            cands = [[d + 1 for d in sh] if sh else [2], list(sh) + [2], [2, 3, 2, 2]]
+            if sh and sh[-1] == 1:
+                cands.append(list(sh[:-1]) + [3])  # would broadcast the TERMINAL instead: must be rejected too
+            bsh = r.choice(cands)
+            n = int(np.prod(bsh))
+            return {"arr": {"sh": list(bsh), "v": [R(r.choice([1, 2, -1])) for _ in range(n)]}}, None
+        x = r.random()
+        if x < 0.25:
+            return {"s": r.choice([R(2), R(-1), R(1, 2), R(3)])}, r.choice([None, "pyscalar"])
+        bsh = list(sh) if x < 0.6 else self.sub_broadcast_shape(sh)
+        n = int(np.prod(bsh)) if bsh else 1
+        return ({"arr": {"sh": list(bsh), "v": [R(r.choice([1, 2, -1, 3, 0, -2])) for _ in range(n)]}},
+                r.choice([None, None, "tensor"]))
+
+    def gen_misc(self) -> bool:
+        """clear_graph / null_grad / copy / failing statements, as the profile allows."""
+        r = self.rng
+        kinds = self.p.get("misc", [])
+        if not kinds:
+            return False
+        k = r.choice(kinds)
+        h = self.pick()
+        if h is None:
+            return False
+        if k in ("clear", "nullgrad"):
+            self.prog.append({"k": k, "h": h})
+            if k == "clear":
+                self.end_epoch_drop_views()
+            return True
+        if k == "copy":
+            s = {"k": "copy", "h": 0, "a": [{"h": h}]}
+            self.nh_assign(s)
+            self.np.H[s["h"]] = self.arr(h).copy()
+            self.prog.append(s)
+            self.const[s["h"]] = self.const[h]
+            self.isview[s["h"]] = False
+            return True
+        if k == "fail":
+            return self.gen_failing()
+        return False
+
+    def nh_assign(self, s):
+        s["h"] = self.nh + 1
+        self.nh += 1
+
+    def gen_failing(self) -> bool:
+        """A statement built to raise in NumPy (and therefore in MyGrad): it must leave no trace (C13)."""
+        r = self.rng
+        a = self.pick(lambda h: self.arr(h).ndim >= 1 and self.arr(h).size > 0)
+        if a is None:
+            return False
+        A = self.arr(a)
+        sh = list(A.shape)
+        kind = r.choice(["bin", "axis", "getitem", "setitem", "aug", "reshape", "matmul", "setitem_view"])
+        h = self.nh + 1
+        if kind == "bin":
+            bad = [d + 1 if d > 1 else 3 for d in sh]
+            s = {"k": "op", "h": h, "f": r.choice(["add", "multiply", "subtract"]),
+                 "a": [{"h": a}, {"arr": {"sh": bad, "v": [R(1)] * int(np.prod(bad))}}]}
+        elif kind == "axis":
+            s = {"k": "op", "h": h, "f": r.choice(["sum", "mean", "max"]), "a": [{"h": a}], "kw": {"axis": [A.ndim + 1]}}
+        elif kind == "getitem":
+            s = {"k": "op", "h": h, "f": "getitem", "a": [{"h": a}], "ix": {"t": "basic", "items": [{"t": "int", "i": sh[0] + 2}]}}
+        elif kind in ("setitem", "setitem_view"):
+            t = a
+            if kind == "setitem_view":
+                c = [q for q in self.live() if self.isview.get(q) and self.arr(q).ndim >= 1 and self.arr(q).size > 0
+                     and self.arr(q).flags.writeable]
+                if not c:
+                    return False
+                t = r.choice(c)
+            tsh = list(self.arr(t).shape)
+            if r.random() < 0.5:
+                s = {"k": "setitem", "t": t, "ix": {"t": "basic", "items": [{"t": "int", "i": tsh[0] + 1}]}, "val": {"s": R(1)}}
+            else:
+                bad = [d + 2 for d in tsh]
+                s = {"k": "setitem", "t": t, "ix": {"t": "basic", "items": [{"t": "ell"}]},
+                     "val": {"arr": {"sh": bad, "v": [R(1)] * int(np.prod(bad))}}}
+        elif kind == "aug":
+            bad = [d + 2 for d in sh]
+            s = {"k": "aug", "t": a, "f": "add", "val": {"arr": {"sh": bad, "v": [R(1)] * int(np.prod(bad))}}}
+        elif kind == "reshape":
+            s = {"k": "op", "h": h, "f": "reshape", "a": [{"h": a}], "sh": [A.size + 1]}
+        else:
+            bad = [sh[-1] + 1, 2]
+            s = {"k": "op", "h": h, "f": "matmul", "a": [{"h": a}, {"arr": {"sh": bad, "v": [R(1)] * int(np.prod(bad))}}]}
+        # it must fail on the twin (on a scratch copy of the twin's arrays for in-place kinds)
+        import copy as _copy
+
+        probe = Exec("np")
+        probe.H = {q: v.copy() for q, v in self.np.H.items()}
+        try:
+            with np.errstate(all="ignore"):
+                probe.run(s)
+            return False
+        except Exception:
+            pass
+        s["fail"] = True
+        self.prog.append(s)
+        return True
 
     def tracking(self):
         return not any(m == "no_autodiff" for m, _ in self.scopes)
@@ -621,6 +758,13 @@ def gen_program(seed: int, profile: dict) -> list[dict]:
                 elif len(g.scopes) < 3:
                     g.enter_scope(rng.choice(profile.get("scopes", ["no_autodiff", "no_autodiff", "mem_guard_off", "mem_guard_on"])))
                 continue
+            wm = profile.get("w_misc", 0.0)
+            if wm and rng.random() < wm:
+                try:
+                    done += bool(g.gen_misc())
+                except GenSkip:
+                    pass
+                continue
             try:
                 if x < wf / tot:
                     ok = g.gen_functional()
@@ -634,13 +778,41 @@ def gen_program(seed: int, profile: dict) -> list[dict]:
         while g.scopes:
             g.exit_scope()
         if profile.get("backward", True):
-            if rng.random() < profile.get("p_nonscalar_L", 0.0):
-                L = g.pick(lambda h: not g.const[h])
-            else:
-                L = g.terminal()
-            if L is not None:
-                g.backward(L)
+            nterm = rng.randint(1, profile.get("max_terminals", 1))
+            Ls = []
+            for _ in range(nterm):
+                if rng.random() < profile.get("p_nonscalar_L", 0.0):
+                    L = g.pick(lambda h: not g.const[h] and g.arr(h).size > 0)
+                else:
+                    L = g.terminal()
+                if L is not None:
+                    Ls.append(L)
+            # between the terminals' backward calls: optional re-use / mutation of shared tensors (C09)
+            for j, L in enumerate(Ls):
+                if j > 0:
+                    for _ in range(rng.randint(0, profile.get("between_steps", 0))):
+                        try:
+                            rng.choice([g.gen_functional, g.gen_inplace, g.gen_view, g.gen_misc])()
+                        except GenSkip:
+                            pass
+                if L not in g.np.H:
+                    continue
+                seed = kind = None
+                x = rng.random()
+                if x < profile.get("p_bad_seed", 0.0):
+                    seed, kind = g.rand_seed(list(g.arr(L).shape), bad=True)
+                elif x < profile.get("p_bad_seed", 0.0) + profile.get("p_seed", 0.0):
+                    seed, kind = g.rand_seed(list(g.arr(L).shape))
+                if rng.random() < profile.get("p_clear_instead", 0.0):
+                    g.prog.append({"k": "clear", "h": L})
+                else:
+                    g.backward(L, seed, kind)
                 g.end_epoch_drop_views()
+                if profile.get("editgrad") and rng.random() < 0.6:
+                    t = g.pick(lambda h: g.arr(h).size > 0)
+                    if t is not None:
+                        g.prog.append({"k": "editgrad", "h": t, "ix": g.basic_index(list(g.arr(t).shape)), "c": R(rng.choice([7, -5, 9]))})
+            g.end_epoch_drop_views()
     return g.prog
 
 
@@ -653,8 +825,21 @@ PROFILES = {
                 max_leaves=2, max_steps=8, p_const_leaf=0.15),
     "c06": dict(functional=["bin", "un", "red"], w_func=0.4, w_view=0.6, w_inplace=0.0, max_leaves=2, max_steps=7,
                 p_const_leaf=0.0),
+    "c09": dict(functional=["bin", "bin", "un", "red", "matmul"], w_func=0.5, w_view=0.25, w_inplace=0.25, max_leaves=2,
+                max_steps=5, max_epochs=2, max_terminals=3, between_steps=3, p_const_leaf=0.15, w_misc=0.1,
+                misc=["clear", "nullgrad"], p_clear_instead=0.2),
+    "c10": dict(functional=["bin", "bin", "un", "power", "red", "matmul", "where", "join", "gathercopy"], w_func=0.55,
+                w_view=0.25, w_inplace=0.2, max_leaves=3, max_steps=8, p_const_leaf=0.4, p_kw_const=0.3, p_int_leaf=0.2),
+    "c12": dict(functional=["bin", "bin", "un", "power", "red", "matmul", "where", "join", "gathercopy"], w_func=0.6,
+                w_view=0.25, w_inplace=0.15, max_leaves=3, max_steps=7, p_const_leaf=0.15, max_epochs=2, p_seed=0.5,
+                p_nonscalar_L=0.5, editgrad=True, w_misc=0.1, misc=["copy"]),
+    "c13": dict(functional=["bin", "bin", "un", "red", "matmul", "gathercopy"], w_func=0.4, w_view=0.25, w_inplace=0.2,
+                max_leaves=2, max_steps=9, p_const_leaf=0.15, w_misc=0.3, misc=["fail"], max_epochs=2, p_bad_seed=0.1),
+    "c14": dict(functional=["bin", "bin", "un", "power", "red", "matmul", "where", "join", "gathercopy"], w_func=0.65,
+                w_view=0.25, w_inplace=0.1, max_leaves=3, max_steps=6, p_const_leaf=0.15, p_seed=0.55, p_bad_seed=0.15,
+                p_nonscalar_L=0.7, p_f32_leaf=0.35),
     "c15": dict(functional=["bin", "bin", "un", "red", "matmul", "gathercopy"], w_func=0.4, w_view=0.3, w_inplace=0.3,
                 max_leaves=2, max_steps=9, p_const_leaf=0.2, p_scope=0.3, max_epochs=2),
-    "c07": dict(functional=["bin", "un", "red", "matmul"], w_func=0.5, w_view=0.3, w_inplace=0.2, max_leaves=2,
-                max_steps=5, max_epochs=3, p_const_leaf=0.1),
+    "c07": dict(functional=["bin", "un", "red", "matmul", "gathercopy"], w_func=0.5, w_view=0.3, w_inplace=0.2, max_leaves=2,
+                max_steps=5, max_epochs=3, p_const_leaf=0.1, w_misc=0.1, misc=["nullgrad", "copy"]),
 }
